@@ -6,7 +6,9 @@ import (
 	"bytes"
 	"encoding/binary"
 	"fmt"
+	"io"
 	"strings"
+	"testing/iotest"
 	"time"
 	"unicode/utf16"
 	"unicode/utf8"
@@ -16,6 +18,7 @@ import (
 	"github.com/foxboron/go-uefi/efivar"
 
 	"verif/internal/hx"
+	"verif/ref/refesl"
 )
 
 func init() {
@@ -23,7 +26,7 @@ func init() {
 		ID:    "C17",
 		Level: "exploration",
 		Rule: "GUIDs: (i) all 65536 GUIDs whose byte i is 0x0i or 0xAi; (ii) each of the 16 byte positions x all 256 values x 3 backgrounds; (iii) Data2 and Data3 exhaustively, Data1 over all values with <=2 non-zero nibbles; (iv) every GUID constant of the library; " +
-			"all ordered pairs of a 600-element subset for equality. Oracle: canonical lower-case text from an independent formatter, text/bytes/struct round trips (both letter cases), big-endian byte form, little-endian wire layout inside encoded structures (both directions). " +
+			"all ordered pairs of a 600-element subset for equality. Oracle: canonical lower-case text from an independent formatter, text/bytes/struct round trips (both letter cases), big-endian byte form, little-endian wire layout inside encoded structures (both directions, decoding also through byte-at-a-time, half-sized and data-with-EOF readers). " +
 			"Strings: all strings of length <=3 over 14 boundary code points (incl. code units whose low byte is 00), a non-BMP character and a U+3000 slid through every offset 0..300 of long strings, every BMP scalar value and every plane boundary individually, long strings; oracle unicode/utf16: encode == UTF-16LE + 0000, decode(encode) == s, decode with trailing bytes, every unterminated prefix is an error. " +
 			"non-trivial = every oracle clause was evaluated for the value; distinct = distinct GUID / string",
 		Assumptions: []string{"2^128 GUIDs are covered only through per-byte and per-field local patterns (width, padding and byte-order bugs are local)", "Go's unicode/utf16 as string reference"},
@@ -151,6 +154,20 @@ func c17Guid(c *hx.Ctx, g util.EFIGUID, wireToo bool) {
 			if err != nil || sd.Owner != g {
 				bad("signature owner decoded from wire bytes differs", fmt.Sprint(sd, err), g)
 				return
+			}
+			// the layout is a property of the bytes, not of how the reader portions them
+			for _, mk := range []func(io.Reader) io.Reader{iotest.OneByteReader, iotest.HalfReader, iotest.DataErrReader} {
+				sd, err := signature.ReadSignatureData(mk(bytes.NewReader(append(append([]byte{}, w[:]...), 7))), 17)
+				if err != nil || sd.Owner != g || len(sd.Data) != 1 || sd.Data[0] != 7 {
+					bad("signature owner decoded from wire bytes differs when the reader returns the bytes in smaller portions", fmt.Sprint(sd, err), g)
+					return
+				}
+				enc := refesl.Encode([]refesl.List{refesl.Mk(refesl.SHA256, 48, refesl.Entry{Owner: refesl.GUID(w), Data: fill(32, 0x2e)})})
+				sl, err := signature.ReadSignatureList(mk(bytes.NewReader(enc)))
+				if err != nil || len(sl.Signatures) != 1 || sl.Signatures[0].Owner != g || sl.SignatureType != signature.CERT_SHA256_GUID {
+					bad("signature list decoded from wire bytes differs when the reader returns the bytes in smaller portions", fmt.Sprint(sl, err), g)
+					return
+				}
 			}
 			var b2 bytes.Buffer
 			signature.WriteSignatureList(&b2, signature.SignatureList{SignatureType: g, ListSize: 28})
